@@ -70,6 +70,7 @@ def main():
     # ---- 2. graph export + lock-step walk over all histories
     runs = [("MCSymTab_graph9.cfg", 6 if c.quick else 8, "9 operations of C19"),
             ("MCSymTab_graph.cfg", 5 if c.quick else 6, "13 operations incl. lookup-or-bind")]
+    runs.append(("MCSymTab_deep.cfg", 10 if c.quick else 12, "deep and narrow: one name, one type, enter/exit/bind/lookup"))
     if not c.quick:
         runs.append(("MCSymTab_graphg.cfg", 6, "3 names x 3 types incl. a gate type, 3 scope kinds"))
     total_h = 0
